@@ -24,7 +24,7 @@ pub fn def() -> CheckDef {
 fn gen_scenario(rng: &mut vsim::rng::Rng) -> Scenario {
     let opts = LifeOpts {
         catches: true,
-        scripted_actions: &["complete", "complete", "error", "skip", "submit", "abort", "back", "remove"],
+        scripted_actions: &["complete", "complete", "error", "skip", "submit", "abort", "back", "remove", "cancel_prev", "cancel_prev"],
         p_scripted: *rng.pick(&[0, 200, 400]),
         adversary: None,
         dup: false,
@@ -65,6 +65,10 @@ fn gen_scenario(rng: &mut vsim::rng::Rng) -> Scenario {
     sc.engine.store = if rng.below(3) == 0 { "sqlite".into() } else { "mem".into() };
     sc.engine.keep_processes = rng.below(2) == 0;
     sc.capture = true;
+    if rng.below(4) == 0 {
+        let keep = opts.p_scripted > 0;
+        anonymise(&mut sc.models[0], rng, 500, keep);
+    }
     sc
 }
 
